@@ -173,7 +173,7 @@ def run(chk, op=OP):
     else:
         extra = [b for b in generate(chk, op, 4) if len(b["nodes"]) == 4]
         chk.count("behaviours=4 (exhaustive)", len(extra))
-        sim = generate(chk, op, 6, simulate=60000, depth=30, label="GqlSched -simulate nodes<=6")
+        sim = generate(chk, op, 6, simulate=8000, depth=30, label="GqlSched -simulate nodes<=6")
         sim = [b for b in sim if len(b["nodes"]) >= 5]
         chk.count("behaviours 5-6 nodes (simulated)", len(sim))
         behs += extra + sim
